@@ -258,11 +258,17 @@ func (bs *BlindSignature) fromBytes(bytes []byte, c *math.Curve) error {
 	bs.a = make([]*math.G1, len(rbs.A))
 	for i := 0; i < len(rbs.A); i++ {
 		bs.a[i], err = c.NewG1FromBytes(rbs.A[i])
+		if err != nil {
+			return err
+		}
 	}
 
 	bs.b = make([]*math.G1, len(rbs.B))
 	for i := 0; i < len(rbs.B); i++ {
 		bs.b[i], err = c.NewG1FromBytes(rbs.B[i])
+		if err != nil {
+			return err
+		}
 	}
 
 	return nil
@@ -381,6 +387,10 @@ func SignBlindSignature(pp *PP, σ BlindSignature, sk SK) (*Signature, error) {
 		return nil, err
 	}
 
+	if len(sk.ys) < len(pp.gs) {
+		return nil, fmt.Errorf("private key has %d elements but %d are needed", len(sk.ys), len(pp.gs))
+	}
+
 	// initialize a to be zero
 	a := pp.c.GenG1.Copy()
 	a.Sub(a)
@@ -433,6 +443,10 @@ func (sigPoK *SigPoK) fromBytes(c *math.Curve, bytes []byte) error {
 	var rspok RawSigPok
 	if _, err := asn1.Unmarshal(bytes, &rspok); err != nil {
 		return fmt.Errorf("malformed proof of signature knowledge: %v", err)
+	}
+
+	if len(rspok.Data) != 5 {
+		return fmt.Errorf("malformed proof of signature knowledge: %d elements instead of 5", len(rspok.Data))
 	}
 
 	sigPoK.ψ = PoKofSignaturePoCorrectForm{}
@@ -717,6 +731,10 @@ func (ξ *BlindCorrectFormProof) Bytes() []byte {
 }
 
 func (ξ *BlindCorrectFormProof) Verify(c *math.Curve, n int, a, b []*math.G1, cm *math.G1, g *math.G1, g0 *math.G1, h *math.G1, u *math.G1, gs []*math.G1) error {
+	if len(a) < n || len(b) < n || len(ξ.x) < n || len(ξ.y) < n || len(ξ.d) < n || len(ξ.f) < n || len(gs) < n {
+		return fmt.Errorf("blind signature or its proof has fewer than %d elements", n)
+	}
+
 	digest := randomOracleForBlindingProof(n, ξ.d, ξ.f, ξ.s, a, b, cm, g, g0, h, u, gs)
 	e := c.HashToZr(digest)
 
@@ -831,6 +849,10 @@ func (ψ *PoKofSignaturePoCorrectForm) Verify(c *math.Curve, ν, hε *math.G1, g
 }
 
 func (ψ *PoKofSignaturePoCorrectForm) checkcommitmentForm(c *math.Curve, e *math.Zr, g2 *math.G2, X *math.G2, κ *math.G2, Y []*math.G2) error {
+	if len(ψ.x) > len(Y) {
+		return fmt.Errorf("proof is over %d elements but the public key has only %d", len(ψ.x), len(Y))
+	}
+
 	left := g2.Mul(ψ.y)
 	for i := 0; i < len(ψ.x); i++ {
 		left.Add(Y[i].Mul(ψ.x[i]))
